@@ -23,9 +23,10 @@ type Mutant struct {
 	File   string // relative to the repository root
 	Old    string
 	New    string
-	Nth    int    // which occurrence of Old (0 = must be unique; k>0 = k-th, 1-based)
-	Expect string // substring of the finding key expected ("" for keep-mutants)
-	Keep   bool   // behaviour-preserving: verdict must stay clean
+	Nth    int         // which occurrence of Old (0 = must be unique; k>0 = k-th, 1-based)
+	Expect string      // substring of the finding key expected ("" for keep-mutants)
+	Keep   bool        // behaviour-preserving: verdict must stay clean
+	Also   [][2]string // further (old, new) fragment replacements in the same file, each unique
 	Why    string
 }
 
@@ -71,6 +72,12 @@ func mutantOverlay(name string) (map[string][]byte, error) {
 	out := append([]byte{}, src[:idx]...)
 	out = append(out, []byte(m.New)...)
 	out = append(out, src[idx+len(m.Old):]...)
+	for _, a := range m.Also {
+		if bytes.Count(out, []byte(a[0])) != 1 {
+			return nil, fmt.Errorf("anchor: additional fragment not unique in %s", m.File)
+		}
+		out = bytes.Replace(out, []byte(a[0]), []byte(a[1]), 1)
+	}
 	return map[string][]byte{path: out}, nil
 }
 
